@@ -1,100 +1,157 @@
 --------------------------- MODULE UdpFallbackSeq ---------------------------
 (***************************************************************************)
-(* C17, several exchanges on ONE upstream: every truncated reply is        *)
-(* retried over TCP and "the TCP reply is what the caller gets" must mean  *)
-(* the reply to ITS OWN query, also when earlier exchanges were cancelled  *)
-(* while the server still owed their reply.                                *)
+(* C17, several exchanges on ONE upstream: every exchange's outcome follows *)
+(* ITS OWN UDP reply (TC => retried over TCP, the TCP reply to its own     *)
+(* query is what the caller gets; no TC => its own UDP reply, no TCP),     *)
+(* whatever happened to other exchanges on the shared UDP socket and the   *)
+(* shared pool of TCP connections.                                         *)
 (*                                                                         *)
-(* pkg/upstream/upstream.go : udpWithFallback (u.t = ReuseConnTransport)   *)
-(* pkg/upstream/transport/reuse.go : ExchangeContext, getIdleConn/setIdle, *)
-(*                                   reusableConn.exchange / readLoop      *)
+(* pkg/upstream/upstream.go : udpWithFallback (u.u = PipelineTransport on  *)
+(*                            one UDP socket, u.t = ReuseConnTransport)    *)
+(* pkg/upstream/transport/conn_traditional.go : wire ids (addQueueC)       *)
+(* pkg/upstream/transport/reuse.go : ExchangeContext (bounded retry on     *)
+(*     reused connections), getIdleConn/setIdle, exchange / readLoop /     *)
+(*     closeWithErr                                                        *)
 (*                                                                         *)
-(* Exchanges 1..N run one after the other, each with its own question.     *)
-(*   Start(x)      ExchangeContext(x) is called                            *)
-(*   UdpDone(x)    the truncated UDP reply arrived, msgTruncated => TCP    *)
-(*   Accept        a new TCP connection is dialled (joins the idle pool)   *)
-(*   Send(x, c)    x takes connection c out of the pool (getIdleConn /     *)
-(*                 getNewConn), registers as its waiter and writes its     *)
-(*                 query; the server queues it                             *)
-(*   Cancel(x)     x's context ends after its query was written: error;    *)
-(*                 the connection stays busy (the reply is still owed)     *)
-(*   Answer(c)     the server answers the oldest query on c (late replies, *)
-(*                 in order); readLoop hands the reply to the waiter, the  *)
-(*                 connection becomes idle                                 *)
-(* Matching = FALSE is the design (the transport does not match ids: the   *)
-(* reply goes to whoever waits on the connection); Matching = TRUE is the  *)
-(* contract used for trace validation (the reply to y can only go to y).   *)
-(* Deviation switch IdleOnCancel: a cancelled exchange puts its connection *)
-(* back into the idle pool.                                                *)
+(*   Start(x)        ExchangeContext(x) is called (own question)           *)
+(*   UdpDone(x)      x's own UDP reply arrived: TC => TCP, else result     *)
+(*   UdpDup(y, x)    a late / duplicated copy of the reply to the FINISHED *)
+(*                   exchange y arrives while x waits for its UDP reply:   *)
+(*                   ignored (its wire id is not x's)                      *)
+(*   Accept          a new TCP connection is dialled (joins the idle pool) *)
+(*   Send(x, c)      x takes live connection c out of the pool, registers  *)
+(*                   as its waiter, writes its query; the server queues it *)
+(*   SendDead(x, c)  x takes a pooled connection the server has closed     *)
+(*                   (not yet noticed by the client): the attempt fails,   *)
+(*                   after MaxTries failed attempts x ends in an error     *)
+(*   Cancel(x)       x's context ends after its query was written: error;  *)
+(*                   the connection stays busy (the reply is still owed)   *)
+(*   Resend(x, c)    the retry after a failure on a reused connection also *)
+(*                   fires after a cancellation                            *)
+(*   Answer(c)       the server answers the oldest query on c (late, in    *)
+(*                   order); readLoop hands it to the waiter; c is idle    *)
+(*   ServerClose(c)  the server closes an idle connection                  *)
+(*   Notice(c)       the client's reader sees the close: closeWithErr      *)
+(*                   removes c from the pool                               *)
+(* Matching = FALSE is the design (no id matching on TCP: the reply goes   *)
+(* to whoever waits on the connection); Matching = TRUE is the contract    *)
+(* used for trace validation (the reply to y can only go to y).            *)
+(* Deviation switches: IdleOnCancel, ForgetKeepsIdle (a noticed close      *)
+(* leaves the connection in the idle pool), DupAccepted (wire ids restart, *)
+(* a stale UDP reply is taken for the current exchange).                   *)
+(* Burst = K > 0 forces one schedule shape (generator only): exchanges     *)
+(* 1..K overlap (K pooled connections), all are answered, the server       *)
+(* closes all K connections, the client notices, then K+1 runs.            *)
 (***************************************************************************)
 EXTENDS Naturals, Sequences, FiniteSets, TLC, Json
 
-CONSTANTS N, MaxConn, MaxResend, Matching, ReuseBusy, IdleOnCancel, WithHist, Export
+CONSTANTS N, MaxConn, MaxResend, MaxTries, MaxDup, TcChoices, Overlap, Burst,
+          EnvCancel, EnvClose, EnvDup,
+          Matching, ReuseBusy,
+          IdleOnCancel, ForgetKeepsIdle, DupAccepted,
+          WithHist, Export
 
-VARIABLES phase, cancelled, nconn, waiting, idle, dead, srvq, result, resFor, resent, hist
-vars == <<phase, cancelled, nconn, waiting, idle, dead, srvq, result, resFor, resent, hist>>
+VARIABLES tcx, phase, cancelled, nconn, waiting, idle, dead, sclosed, noticed, srvq,
+          result, resFor, resent, ndup, tries, hitNoticed, hist
+vars == <<tcx, phase, cancelled, nconn, waiting, idle, dead, sclosed, noticed, srvq,
+          result, resFor, resent, ndup, tries, hitNoticed, hist>>
 
 X == 1..N
 C == 1..MaxConn
 H(e) == hist' = IF WithHist THEN Append(hist, e) ELSE hist
 
 Init ==
+    /\ tcx \in [X -> TcChoices]
     /\ phase = [x \in X |-> "new"] /\ cancelled = {} /\ nconn = 0
-    /\ waiting = [c \in C |-> 0] /\ idle = {} /\ dead = {} /\ srvq = [c \in C |-> <<>>]
-    /\ result = [x \in X |-> "none"] /\ resFor = [x \in X |-> 0] /\ resent = 0 /\ hist = <<>>
+    /\ waiting = [c \in C |-> 0] /\ idle = {} /\ dead = {} /\ sclosed = {} /\ noticed = {}
+    /\ srvq = [c \in C |-> <<>>]
+    /\ result = [x \in X |-> "none"] /\ resFor = [x \in X |-> 0] /\ resent = 0 /\ ndup = 0
+    /\ tries = [x \in X |-> 0] /\ hitNoticed = [x \in X |-> FALSE] /\ hist = <<>>
 
 Start(x) ==
-    /\ phase[x] = "new" /\ \A y \in X : y < x => phase[y] = "done"
+    /\ phase[x] = "new"
+    /\ IF Burst > 0
+       THEN IF x <= Burst THEN \A y \in X : y < x => phase[y] = "wait"
+            ELSE (\A y \in X : y < x => phase[y] = "done") /\ (\A c \in 1..nconn : c \in noticed)
+       ELSE \A y \in X : y < x => IF Overlap THEN phase[y] # "new" ELSE phase[y] = "done"
     /\ phase' = [phase EXCEPT ![x] = "udp"] /\ H(<<"start", x>>)
-    /\ UNCHANGED <<cancelled, nconn, waiting, idle, dead, srvq, result, resFor, resent>>
+    /\ UNCHANGED <<tcx, cancelled, nconn, waiting, idle, dead, sclosed, noticed, srvq, result, resFor, resent, ndup, tries, hitNoticed>>
+
+\* x is handed the UDP reply that was made for exchange y (y = x: its own)
+TakeUdp(x, y) ==
+    IF tcx[y]
+    THEN phase' = [phase EXCEPT ![x] = "tcp"] /\ UNCHANGED <<result, resFor>>
+    ELSE /\ phase' = [phase EXCEPT ![x] = "done"]
+         /\ result' = [result EXCEPT ![x] = "udp"] /\ resFor' = [resFor EXCEPT ![x] = y]
 
 UdpDone(x) ==
     /\ phase[x] = "udp"
-    /\ phase' = [phase EXCEPT ![x] = "tcp"]
-    /\ UNCHANGED <<cancelled, nconn, waiting, idle, dead, srvq, result, resFor, resent, hist>>
+    /\ TakeUdp(x, x)
+    /\ UNCHANGED <<tcx, cancelled, nconn, waiting, idle, dead, sclosed, noticed, srvq, resent, ndup, tries, hitNoticed, hist>>
+
+UdpDup(y, x) ==
+    /\ EnvDup /\ ndup < MaxDup /\ y # x /\ phase[x] = "udp" /\ phase[y] = "done"
+    /\ ndup' = ndup + 1
+    /\ IF DupAccepted THEN TakeUdp(x, y) ELSE UNCHANGED <<phase, result, resFor>>
+    /\ H(<<"dup", y>>)
+    /\ UNCHANGED <<tcx, cancelled, nconn, waiting, idle, dead, sclosed, noticed, srvq, resent, tries, hitNoticed>>
 
 \* (also in the background: a cancelled exchange that had reused a connection retries, and the dial
 \* it started completes after the caller has gone; the connection goes to the pool)
 Accept ==
     /\ nconn < MaxConn /\ \E x \in X : phase[x] = "tcp" \/ x \in cancelled
     /\ nconn' = nconn + 1 /\ idle' = idle \cup {nconn + 1}
-    /\ UNCHANGED <<phase, cancelled, waiting, dead, srvq, result, resFor, resent, hist>>
+    /\ UNCHANGED <<tcx, phase, cancelled, waiting, dead, sclosed, noticed, srvq, result, resFor, resent, ndup, tries, hitNoticed, hist>>
 
 Send(x, c) ==
-    /\ phase[x] = "tcp" /\ c \in 1..nconn /\ c \notin dead
+    /\ phase[x] = "tcp" /\ c \in 1..nconn /\ c \notin dead /\ c \notin sclosed
     /\ c \in idle \/ ReuseBusy
     /\ idle' = idle \ {c}
     /\ waiting' = [waiting EXCEPT ![c] = x]
     /\ srvq' = [srvq EXCEPT ![c] = Append(@, x)]
     /\ phase' = [phase EXCEPT ![x] = "wait"]
-    /\ UNCHANGED <<cancelled, nconn, dead, result, resFor, resent, hist>>
+    /\ UNCHANGED <<tcx, cancelled, nconn, dead, sclosed, noticed, result, resFor, resent, ndup, tries, hitNoticed, hist>>
+
+\* a pooled connection that the server has closed: the write / read fails, ExchangeContext tries
+\* again (another pooled connection or a fresh one) - at most MaxTries failed attempts
+SendDead(x, c) ==
+    /\ phase[x] = "tcp" /\ c \in idle /\ c \in sclosed
+    /\ Matching => c \notin noticed      \* contract: a connection whose close was noticed is not offered again
+    /\ idle' = idle \ {c}
+    /\ tries' = [tries EXCEPT ![x] = @ + 1]
+    /\ hitNoticed' = [hitNoticed EXCEPT ![x] = @ \/ c \in noticed]
+    /\ IF tries'[x] >= MaxTries
+       THEN phase' = [phase EXCEPT ![x] = "done"] /\ result' = [result EXCEPT ![x] = "err"]
+       ELSE UNCHANGED <<phase, result>>
+    /\ UNCHANGED <<tcx, cancelled, nconn, waiting, dead, sclosed, noticed, srvq, resFor, resent, ndup, hist>>
 
 \* ExchangeContext retries when an exchange on a REUSED connection fails - also when it "failed"
 \* because the caller's context ended: the query is written once more to another idle connection
 \* and abandoned at once (the caller still gets its context error)
 Resend(x, c) ==
     /\ x \in cancelled /\ resent < MaxResend
-    /\ c \in 1..nconn /\ c \notin dead /\ (c \in idle \/ ReuseBusy)
+    /\ c \in 1..nconn /\ c \notin dead /\ c \notin sclosed /\ (c \in idle \/ ReuseBusy)
     /\ idle' = idle \ {c}
     /\ waiting' = [waiting EXCEPT ![c] = x]
     /\ srvq' = [srvq EXCEPT ![c] = Append(@, x)]
     /\ resent' = resent + 1
-    /\ UNCHANGED <<phase, cancelled, nconn, dead, result, resFor, hist>>
+    /\ UNCHANGED <<tcx, phase, cancelled, nconn, dead, sclosed, noticed, result, resFor, ndup, tries, hitNoticed, hist>>
 
 ConnOf(x) == CHOOSE c \in C : \E i \in 1..Len(srvq[c]) : srvq[c][i] = x
 
 Cancel(x) ==
-    /\ phase[x] = "wait"
+    /\ EnvCancel /\ phase[x] = "wait"
     /\ phase' = [phase EXCEPT ![x] = "done"] /\ result' = [result EXCEPT ![x] = "err"]
     /\ cancelled' = cancelled \cup {x}
     /\ IF IdleOnCancel
        THEN LET c == ConnOf(x) IN waiting' = [waiting EXCEPT ![c] = 0] /\ idle' = idle \cup {c}
        ELSE UNCHANGED <<waiting, idle>>
     /\ H(<<"cancel", x>>)
-    /\ UNCHANGED <<nconn, dead, srvq, resFor, resent>>
+    /\ UNCHANGED <<tcx, nconn, dead, sclosed, noticed, srvq, resFor, resent, ndup, tries, hitNoticed>>
 
 Answer(c) ==
     /\ c \in 1..nconn /\ srvq[c] # <<>>
+    /\ Burst > 0 => \A x \in 1..Burst : phase[x] \in {"wait", "done"}
     /\ LET y == Head(srvq[c])
            w == IF Matching THEN (IF phase[y] = "wait" THEN y ELSE 0) ELSE waiting[c] IN
        /\ srvq' = [srvq EXCEPT ![c] = Tail(@)]
@@ -111,24 +168,44 @@ Answer(c) ==
                        /\ result' = [result EXCEPT ![w] = "tcp"] /\ resFor' = [resFor EXCEPT ![w] = y]
                   ELSE UNCHANGED <<phase, result, resFor>>
                /\ UNCHANGED dead
-    /\ UNCHANGED <<cancelled, nconn, resent>>
+    /\ UNCHANGED <<tcx, cancelled, nconn, sclosed, noticed, resent, ndup, tries, hitNoticed>>
 
-Next == \/ \E x \in X : Start(x) \/ UdpDone(x) \/ Cancel(x) \/ \E c \in C : Send(x, c) \/ Resend(x, c)
-        \/ Accept \/ \E c \in C : Answer(c)
+ServerClose(c) ==
+    /\ EnvClose /\ c \in 1..nconn /\ c \notin sclosed /\ c \notin dead
+    /\ srvq[c] = <<>> /\ waiting[c] = 0 /\ c \in idle
+    /\ Burst > 0 => \A x \in 1..Burst : phase[x] = "done"
+    /\ sclosed' = sclosed \cup {c}
+    /\ H(<<"sclose", c>>)
+    /\ UNCHANGED <<tcx, phase, cancelled, nconn, waiting, idle, dead, noticed, srvq, result, resFor, resent, ndup, tries, hitNoticed>>
+
+Notice(c) ==
+    /\ c \in sclosed /\ c \notin noticed
+    /\ noticed' = noticed \cup {c}
+    /\ idle' = IF ForgetKeepsIdle THEN idle ELSE idle \ {c}
+    /\ UNCHANGED <<tcx, phase, cancelled, nconn, waiting, dead, sclosed, srvq, result, resFor, resent, ndup, tries, hitNoticed, hist>>
+
+Next == \/ \E x \in X : \/ Start(x) \/ UdpDone(x) \/ Cancel(x)
+                        \/ \E c \in C : Send(x, c) \/ SendDead(x, c) \/ Resend(x, c)
+                        \/ \E y \in X : UdpDup(y, x)
+        \/ Accept \/ \E c \in C : Answer(c) \/ ServerClose(c) \/ Notice(c)
 Spec == Init /\ [][Next]_vars
 
-TypeOK == /\ \A x \in X : phase[x] \in {"new", "udp", "tcp", "wait", "done"} /\ result[x] \in {"none", "tcp", "err"}
+TypeOK == /\ \A x \in X : phase[x] \in {"new", "udp", "tcp", "wait", "done"} /\ result[x] \in {"none", "udp", "tcp", "err"}
           /\ nconn \in 0..MaxConn /\ idle \subseteq 1..nconn
 
-\* the TCP reply a caller gets answers its own query
-OwnReply == \A x \in X : result[x] = "tcp" => resFor[x] = x
-\* only a cancelled exchange ends in an error (the server answers everything here)
-ErrOnlyCancelled == \A x \in X : result[x] = "err" => x \in cancelled
+\* what a caller gets follows its own UDP reply and answers its own query
+OwnReply == \A x \in X : /\ result[x] = "tcp" => resFor[x] = x /\ tcx[x]
+                         /\ result[x] = "udp" => resFor[x] = x /\ ~tcx[x]
+\* an exchange fails only when it was cancelled or when all its attempts hit connections the server
+\* had closed ...
+ErrJustified == \A x \in X : result[x] = "err" => x \in cancelled \/ tries[x] >= MaxTries
+\* ... whose close the client had not noticed yet: a noticed close never costs an attempt
+NoticedNotOffered == \A x \in X : ~hitNoticed[x]
 \* a busy connection (reply owed) is never in the idle pool
 BusyNotIdle == \A c \in 1..nconn : (c \in idle /\ c \notin dead) => srvq[c] = <<>>
-C17SeqInv == OwnReply /\ ErrOnlyCancelled
+C17SeqInv == OwnReply /\ ErrJustified /\ NoticedNotOffered
 
 Terminal == (\A x \in X : phase[x] = "done") /\ \A c \in C : srvq[c] = <<>>
 Emit == (Export /\ Terminal) =>
-    PrintT(<<"BEH", ToJson([steps |-> hist, result |-> [x \in X |-> result[x]]])>>)
+    PrintT(<<"BEH", ToJson([steps |-> hist, result |-> [x \in X |-> result[x]], tc |-> [x \in X |-> tcx[x]]])>>)
 =============================================================================
